@@ -111,7 +111,7 @@ theorem flat_step (A : Dict) (p : List Text) (hd : NoneOrDict A (dotted p) fun S
     have hm := nested_miss (derase A (dotted p)) p S
       (by intro n hn; subst hn; simpa [dotted] using dget_derase_self A n)
       (fun q0 r1 rs hp => noneOrDict_derase A _ q0 _ (h3 q0 r1 rs hp))
-    simp [attachStep, hS, pyUpdate, h2, hm, contentOf]
+    simp [attachStep, hS, h2, hm, contentOf]
 
 theorem flat_all (ps : List (List Text)) : ∀ A : Dict, FlatGuard A ps →
     attachAll A ps = .ok (dropKeys A (ps.map dotted), ps.map fun p => (p, contentOf A (dotted p))) := by
